@@ -115,12 +115,66 @@ impl RegexMatcher {
         // end to make it try the others until the whole path is consumed ('$'
         // would also accept the position before a final newline).
         let anchored = match regex_type {
-            RegexType::PosixExtended => format!("({pattern})\\'"),
+            RegexType::PosixExtended => {
+                format!("({})\\'", escape_unmatched_parentheses(pattern))
+            }
             _ => format!("\\({pattern}\\)\\'"),
         };
         let regex = Regex::with_options(&anchored, options, &syntax)?;
         Ok(Self { regex })
     }
+}
+
+/// In a POSIX extended regular expression a ')' without a '(' before it is an
+/// ordinary character; inside the group the pattern is wrapped in it would
+/// close that group instead, so it is escaped.
+fn escape_unmatched_parentheses(pattern: &str) -> String {
+    let mut result = String::with_capacity(pattern.len());
+    let mut depth = 0usize;
+    let mut chars = pattern.chars().peekable();
+    while let Some(ch) = chars.next() {
+        match ch {
+            '\\' => {
+                result.push(ch);
+                if let Some(escaped) = chars.next() {
+                    result.push(escaped);
+                }
+                continue;
+            }
+            '[' => {
+                // Copy the bracket expression: a ']' directly after "[" or "[^"
+                // is a member, and "[:class:]" ends with its own ']'.
+                result.push(ch);
+                if chars.peek() == Some(&'^') {
+                    result.extend(chars.next());
+                }
+                if chars.peek() == Some(&']') {
+                    result.extend(chars.next());
+                }
+                while let Some(member) = chars.next() {
+                    result.push(member);
+                    if member == ']' {
+                        break;
+                    }
+                    if member == '[' && chars.peek() == Some(&':') {
+                        for class_char in chars.by_ref() {
+                            result.push(class_char);
+                            if class_char == ']' {
+                                break;
+                            }
+                        }
+                    }
+                }
+                continue;
+            }
+            '(' => depth += 1,
+            ')' if depth > 0 => depth -= 1,
+            ')' => result.push('\\'),
+            _ => {}
+        }
+        result.push(ch);
+    }
+    result
 }
 
 impl Matcher for RegexMatcher {
